@@ -63,8 +63,9 @@ def countOp (s : Step) (ops : List Step) : Nat := (ops.filter (· == s)).length
 def spec (c : Case) (o : Obs) : Bool :=
   -- history independence
   o.after == o.alone && o.deepSame &&
-  -- no effect on any other class definition
-  o.earlierSame &&
+  -- no effect on any other class definition; the outcome depends on body, bases and arguments only: every
+  -- user callable a class holds or runs was written in its own body, in a base, or passed as an argument
+  o.earlierSame && o.foreignFree &&
   -- arguments neither rebound nor mutated by a definition
   o.cellsSame && o.containersSame &&
   o.cellsAfter == c.decos.map initCells &&
